@@ -223,7 +223,7 @@ func (g *reqGen) fieldsOf(typ string) []zf {
 	if g.o.Strat == StratReflect {
 		var out []zf
 		for _, f := range fs {
-			if f.name == "find" || (g.o.NoUnion && f.typ == "Thing") {
+			if g.o.NoUnion && f.typ == "Thing" {
 				continue
 			}
 			out = append(out, f)
